@@ -162,12 +162,16 @@ def derived(tier, rng):
                                                {"layout_drifting": True}))
             add(f"{bname}[mask] [unknown chunks]",
                 lambda base=base, d=data: ((lambda b: b[b > 2])(base()), d[d > 2], {"unknown_chunks": True}))
+            add(f"outer({bname},{bname})", lambda base=base, d=data: ((lambda b: da.outer(b, b))(base()), np.outer(d, d), {}))
             add(f"elemwise-broadcast({bname})",
                 lambda base=base, d=data: (base()[:, None] * base()[None, :], d[:, None] * d[None, :], {}))
         if data.ndim == 2:
             add(f"{bname}+{bname}.rechunk(1)", lambda base=base, d=data: (base() + base().rechunk(1), d + d, {}))
             add(f"{bname}[:, 1]", lambda base=base, d=data: (base()[:, 1], d[:, 1], {}))
             add(f"{bname}.mean(1)", lambda base=base, d=data: (base().mean(axis=1), d.mean(axis=1), {}))
+            # contractions: list-valued index patterns (tensordot) and one operand under two index patterns (x @ x.T)
+            add(f"tensordot({bname},{bname}.T)", lambda base=base, d=data: (da.tensordot(base(), base().T, axes=1), np.tensordot(d, d.T, axes=1), {}))
+            add(f"{bname}@{bname}.T", lambda base=base, d=data: ((lambda b: b @ b.T)(base()), d @ d.T, {}))
     # concatenate / stack of heterogeneous inputs with a list index on a non-concat axis: optimisation pushes the take
     # into each input separately, whose shuffles may settle on different layouts
     base4 = np.arange(8, dtype="f8").reshape(4, 2)
